@@ -25,6 +25,7 @@
 import GraphiqModel.Proofs.PrepOrder
 import GraphiqModel.Proofs.Topo
 import GraphiqModel.Proofs.FuseLoop
+import GraphiqModel.Proofs.MetricsHistInv
 namespace Graphiq.C12
 open Graphiq Graphiq.Dag Graphiq.Metrics Relation
 
@@ -486,5 +487,111 @@ example : fuseWire ⟨.e, 0⟩ [hE0, pE0, cnotE0P0, mcrE0P1, zE0] =
       [wrapperOn ⟨.e, 0⟩ [.phase, .hadamard], cnotE0P0, mcrE0P1, wrapperOn ⟨.e, 0⟩ [.sigmaZ]] ∧
     fuseWire ⟨.p, 0⟩ [cnotE0P0, wrapP0, xP0] = [cnotE0P0, wrapperOn ⟨.p, 0⟩ [.sigmaX, .hadamard, .phase]] ∧
     flatOps [cnotE0P0, wrapP0, xP0] = [.inr cnotE0P0, .inl .phase, .inl .hadamard, .inl .sigmaX] := by decide
+
+/-! ## 9. `GroupHyp` is an invariant of the edit API: it holds on every reachable circuit
+
+  `GroupHyp c` (hypothesis of `group_is_fuse_of_runs_on_wires`) says that every operation held by the circuit is as
+  graphiq's own classes construct it: no user labels, at most two quantum registers, wrappers wrap base gate classes, and an
+  operation that carries the label "one-qubit" and is of a one-qubit gate class acts on ONE quantum register and NO classical
+  register.  It is a statement about the operation objects only, so it can only be violated by handing the API an operation
+  object that graphiq's constructors cannot produce (`GraphiqOp` fails) — never by the edits themselves: -/
+
+/-- a well-formed call whose operation argument (if any) is an object graphiq's classes construct -/
+def EditOKg (c : Dag) : Edit → Prop
+  | .add op => GraphiqOp op
+  | .insertAt op es => GraphiqOp op ∧ InsertOK c op es
+  | .replaceOp _ op => GraphiqOp op
+  | _ => True
+
+def HistOKg (c : Dag) : List Edit → Prop
+  | [] => True
+  | e :: es => EditOKg c e ∧ HistOKg (apply c e).1 es
+
+theorem EditOKg.toEditOK {c : Dag} {e : Edit} (h : EditOKg c e) : EditOK c e := by
+  cases e with
+  | add op => exact h.wf
+  | insertAt op es => exact ⟨h.1.wf, h.2⟩
+  | replaceOp i op => exact h.wf
+  | removeOp i => trivial
+  | unwrapNodes => trivial
+  | removeIdentity => trivial
+  | groupOneQubitGates => trivial
+  | addRegister t s => trivial
+
+theorem HistOKg.toHistOK : ∀ {es : List Edit} {c : Dag}, HistOKg c es → HistOK c es
+  | [], _, _ => trivial
+  | _ :: _, _, h => ⟨h.1.toEditOK, HistOKg.toHistOK h.2⟩
+
+/-- **every edit keeps `GroupHyp`** — `group_one_qubit_gates` itself included (the wrappers it creates are one-qubit gate
+    objects wrapping base classes), whether the call succeeds or raises -/
+theorem edit_preserves_groupHyp {c : Dag} (h : DagInv c) (hh : GroupHyp c) (e : Edit) (he : EditOKg c e) :
+    GroupHyp (apply c e).1 := by
+  obtain ⟨P, g⟩ := h
+  cases e with
+  | add op => exact add_groupHyp g hh he
+  | insertAt op es => exact insertAt_groupHyp g hh he.1 he.2
+  | removeOp i => exact removeOp_groupHyp g hh _
+  | replaceOp i op => exact replaceOp_groupHyp hh _ he
+  | unwrapNodes => exact unwrapNodes_groupHyp g hh
+  | removeIdentity => exact removeIdentity_groupHyp g hh
+  | groupOneQubitGates => exact groupOneQubitGates_groupHyp g hh
+  | addRegister t size => exact addRegister_groupHyp g hh t size
+
+/-- … hence every history does -/
+theorem history_groupHyp (es : List Edit) : ∀ {c : Dag}, DagInv c → GroupHyp c → HistOKg c es →
+    DagInv (run c es) ∧ GroupHyp (run c es) := by
+  induction es with
+  | nil => intro c h hh _; exact ⟨h, hh⟩
+  | cons e rest ih =>
+    intro c h hh hok
+    exact ih (edit_preserves_dagInv h e hok.1.toEditOK) (edit_preserves_groupHyp h hh e hok.1) hok.2
+
+/-- **`GroupHyp` holds on every circuit reachable from `CircuitDAG(ne, np, nc)`** by any history over the whole edit API —
+    add, insert_at, remove_op, replace_op, unwrap_nodes, remove_identity, group_one_qubit_gates, add_*_register, in any
+    order, successful or raising — whose operation arguments are graphiq-constructed objects.  So `GroupHyp` is no
+    restriction on the circuits `group_one_qubit_gates` can meet: it restricts only the operation objects handed in. -/
+theorem groupHyp_on_every_reachable_circuit (ne np nc : Nat) (es : List Edit) (hok : HistOKg (Dag.init ne np nc) es) :
+    DagInv (run (Dag.init ne np nc) es) ∧ GroupHyp (run (Dag.init ne np nc) es) :=
+  history_groupHyp es (init_dagInv ne np nc) (init_groupHyp ne np nc) hok
+
+/-- **`group_one_qubit_gates` = fuse of runs, with no hypothesis on the circuit**: after any history of edits (with
+    graphiq-constructed operations) from a fresh circuit, the call does not raise and acts on the wires as
+    `group_is_fuse_of_runs_on_wires` says -/
+theorem group_is_fuse_of_runs_after_any_history (ne np nc : Nat) (es : List Edit) (hok : HistOKg (Dag.init ne np nc) es) :
+    ∃ P, Good (run (Dag.init ne np nc) es) P ∧
+      (run (Dag.init ne np nc) es).groupOneQubitGates.2 = none ∧
+      ∃ P', Good (run (Dag.init ne np nc) es).groupOneQubitGates.1 P' ∧
+        (∀ r, wireOps (run (Dag.init ne np nc) es).groupOneQubitGates.1 (P' r) =
+          fuseWire r (wireOps (run (Dag.init ne np nc) es) (P r))) ∧
+        (∀ r, flatOps (wireOps (run (Dag.init ne np nc) es).groupOneQubitGates.1 (P' r)) =
+          flatOps (wireOps (run (Dag.init ne np nc) es) (P r))) := by
+  obtain ⟨⟨P, g⟩, hh⟩ := groupHyp_on_every_reachable_circuit ne np nc es hok
+  obtain ⟨e, P', g', hw, _, _, hfl⟩ := group_is_fuse_of_runs_on_wires g hh
+  exact ⟨P, g, e, P', g', hw, hfl⟩
+
+/-- the hypothesis is sharp in the only direction left: an operation object that is groupable but is NOT a one-qubit gate
+    object (here: class `Hadamard`, label "one-qubit", two quantum registers — not constructible with graphiq's classes)
+    is not a `GraphiqOp`, and a circuit holding it violates `GroupHyp` -/
+def badH : Op := ⟨.hadamard, [⟨.e, 0⟩, ⟨.e, 1⟩], [], ["one-qubit"], []⟩
+
+example : ¬ GraphiqOp badH := fun h => by
+  obtain ⟨⟨r, hr⟩, _⟩ := h.shape (by decide)
+  simp [badH] at hr
+
+example : ¬ GroupHyp ((Dag.init 2 0 0).add badH).1 := fun hh => by
+  obtain ⟨⟨r, hr⟩, _⟩ := hh.shape 1 badH (by decide) (by decide)
+  simp [badH] at hr
+
+/-- non-vacuity: the history of §8 (with graphiq-constructed operations) satisfies `HistOKg` -/
+example : HistOKg (Dag.init 1 1 0)
+    [.add hE0, .insertAt hE0 [⟨.op 1, .out ⟨.e, 0⟩, ⟨.e, 0⟩⟩], .add cnotE0P0, .add mcrE0P1, .add wrapP0, .removeOp 1,
+     .removeOp 77, .replaceOp 3 cnotE0P0, .addRegister .e 1, .addRegister .p 2, .unwrapNodes, .removeIdentity,
+     .groupOneQubitGates] :=
+  have gH : GraphiqOp hE0 := graphiqOp_oneQubit rfl (by decide)
+  have gC : GraphiqOp cnotE0P0 := ⟨cnot_wf, ⟨⟨by decide, by decide⟩, by decide⟩, fun h => absurd h (by decide)⟩
+  have gM : GraphiqOp mcrE0P1 := ⟨mcr_wf, ⟨⟨by decide, by decide⟩, by decide⟩, fun h => absurd h (by decide)⟩
+  have gW : GraphiqOp wrapP0 := ⟨wrap_wf, ⟨⟨by decide, by decide⟩, by decide⟩, fun _ => ⟨⟨_, rfl⟩, rfl⟩⟩
+  ⟨gH, ⟨gH, ⟨by decide, rfl, by intro e1 h1 e2 h2 hne; simp at h1 h2; subst h1 h2; exact absurd rfl hne⟩⟩,
+   gC, gM, gW, trivial, trivial, gC, trivial, trivial, trivial, trivial, trivial, trivial⟩
 
 end Graphiq.C12
